@@ -527,7 +527,7 @@ class AstInfo:
 
         Returns:
             True if it should be covered, False otherwise.
-            Defaults to True if there is no conditional statement at lineno.
+            Defaults to `should_cover_line` if there is no conditional statement at lineno.
         """
         for branch_node in nodes_of_class(self.ast, (ast.If, ast.For, ast.While, ast.match_case)):
             start = scope_line_range(branch_node)[0]
@@ -547,7 +547,8 @@ class AstInfo:
                     )
                 )
 
-        return True
+        # Any other conditional jump (except clause, assert, ...) follows its own line.
+        return self.should_cover_line(lineno)
 
 
 class InstrumentationAdapter(Protocol):
